@@ -503,17 +503,31 @@ Qed.
 (* 7. Error trees: errors.As finds a layer iff one occurs anywhere in the tree                        *)
 (* ================================================================================================ *)
 Fixpoint err_ind' (P : err -> Prop) (Hb : P EBase) (Hw : forall l e, P e -> P (EWrap l e))
-         (Hj : forall es, Forall P es -> P (EJoin es)) (e : err) : P e :=
+         (Hj : forall es, Forall P es -> P (EJoin es))
+         (Hc : forall ls b e, P e -> P (ECustom ls b e)) (e : err) : P e :=
   match e with
   | EBase => Hb
-  | EWrap l e' => Hw l e' (err_ind' P Hb Hw Hj e')
+  | EWrap l e' => Hw l e' (err_ind' P Hb Hw Hj Hc e')
   | EJoin es =>
     Hj es ((fix go (es : list err) : Forall P es :=
               match es with
               | [] => Forall_nil P
-              | x :: r => Forall_cons x (err_ind' P Hb Hw Hj x) (go r)
+              | x :: r => Forall_cons x (err_ind' P Hb Hw Hj Hc x) (go r)
               end) es)
+  | ECustom ls b e' => Hc ls b e' (err_ind' P Hb Hw Hj Hc e')
   end.
+
+Lemma find_first_is_some {A} (f : layer -> option A) ls :
+  is_some (find_first f ls) = existsb (fun l => is_some (f l)) ls.
+Proof. induction ls as [|l r IH]; [reflexivity|]. simpl. destruct (f l); simpl; [reflexivity|exact IH]. Qed.
+
+Lemma find_first_witness {A} (f : layer -> option A) ls a :
+  find_first f ls = Some a -> Exists (fun l => f l = Some a) ls.
+Proof.
+  induction ls as [|l r IH]; [discriminate|]. simpl. destruct (f l) eqn:F.
+  - intros H. left. congruence.
+  - intros H. right. auto.
+Qed.
 
 Lemma find_layer_join_cons {A} (f : layer -> option A) x r :
   find_layer f (EJoin (x :: r)) =
@@ -523,20 +537,26 @@ Proof. reflexivity. Qed.
 Lemma find_layer_occurs {A} (f : layer -> option A) e :
   is_some (find_layer f e) = occurs (fun l => is_some (f l)) e.
 Proof.
-  induction e as [| l e IH | es IH] using err_ind'.
+  induction e as [| l e IH | es IH | ls b e IH] using err_ind'.
   - reflexivity.
   - simpl. destruct (f l); simpl; [reflexivity|exact IH].
   - induction IH as [|x r Hx Hr IHr]; [reflexivity|].
     rewrite find_layer_join_cons. cbn [occurs existsb]. rewrite <- Hx.
     destruct (find_layer f x); simpl; [reflexivity|]. exact IHr.
+  - cbn [find_layer occurs]. rewrite <- find_first_is_some, <- IH.
+    destruct (find_first f ls); reflexivity.
 Qed.
+
+Lemma existsb_ext_l {A} (p q : A -> bool) l : (forall x, p x = q x) -> existsb p l = existsb q l.
+Proof. intros H. induction l as [|x r IH]; [reflexivity|]. simpl. rewrite H, IH. reflexivity. Qed.
 
 Lemma occurs_ext p q e : (forall l, p l = q l) -> occurs p e = occurs q e.
 Proof.
-  intros H. induction e as [| l e IH | es IH] using err_ind'.
+  intros H. induction e as [| l e IH | es IH | ls b e IH] using err_ind'.
   - reflexivity.
   - simpl. rewrite H, IH. reflexivity.
   - induction IH as [|x r Hx Hr IHr]; [reflexivity|]. cbn [occurs existsb] in *. rewrite Hx, IHr. reflexivity.
+  - cbn [occurs]. rewrite IH. f_equal. apply existsb_ext_l. exact H.
 Qed.
 
 (* Prop-valued occurrence, for "the value found is carried by some layer of the tree" *)
@@ -545,6 +565,7 @@ Fixpoint occursP (P : layer -> Prop) (e : err) : Prop :=
   | EBase => False
   | EWrap l e' => P l \/ occursP P e'
   | EJoin es => (fix go (es : list err) : Prop := match es with [] => False | x :: r => occursP P x \/ go r end) es
+  | ECustom ls _ e' => Exists P ls \/ occursP P e'
   end.
 
 Lemma occursP_join_cons P x r : occursP P (EJoin (x :: r)) = (occursP P x \/ occursP P (EJoin r)).
@@ -553,12 +574,15 @@ Proof. reflexivity. Qed.
 Lemma find_layer_witness {A} (f : layer -> option A) e a :
   find_layer f e = Some a -> occursP (fun l => f l = Some a) e.
 Proof.
-  induction e as [| l e IH | es IH] using err_ind'.
+  induction e as [| l e IH | es IH | ls b e IH] using err_ind'.
   - discriminate.
   - simpl. destruct (f l) eqn:F; [intros H; left; congruence|intros H; right; auto].
   - induction IH as [|x r Hx Hr IHr]; [discriminate|].
     rewrite find_layer_join_cons, occursP_join_cons.
     destruct (find_layer f x) eqn:F; [intros H; left; apply Hx; congruence|intros H; right; auto].
+  - cbn [find_layer occursP]. destruct (find_first f ls) eqn:F.
+    + intros H. left. apply find_first_witness. congruence.
+    + intros H. right. auto.
 Qed.
 
 Definition is_perm_layer (l : layer) : bool := match l with LPerm => true | _ => false end.
@@ -584,10 +608,11 @@ Qed.
 
 Lemma occursP_impl (P Q : layer -> Prop) e : (forall l, P l -> Q l) -> occursP P e -> occursP Q e.
 Proof.
-  intros I. induction e as [| l e IH | es IH] using err_ind'.
+  intros I. induction e as [| l e IH | es IH | ls b e IH] using err_ind'.
   - auto.
   - simpl. intros [H|H]; [left; auto|right; auto].
   - induction IH as [|x r Hx Hr IHr]; [auto|]. rewrite !occursP_join_cons. intros [H|H]; [left; auto|right; auto].
+  - cbn [occursP]. intros [H|H]; [left|right; auto]. eapply Exists_impl; [exact I|exact H].
 Qed.
 
 Lemma throttle_of_witness e d : throttle_of e = Some d -> occursP (fun l => l = LThrottle d) e.
@@ -613,3 +638,26 @@ Qed.
 
 Lemma is_permanent_wrap l e : is_permanent (EWrap l e) = is_perm_layer l || is_permanent e.
 Proof. rewrite !is_permanent_occurs. reflexivity. Qed.
+
+(* ---- error types with their own As / Is methods ---------------------------------------------------------- *)
+(* an Is method never influences any classification of the retry path (only errors.As is used there) *)
+Lemma is_method_irrelevant {A} (f : layer -> option A) ls b b' e :
+  find_layer f (ECustom ls b e) = find_layer f (ECustom ls b' e).
+Proof. reflexivity. Qed.
+
+(* a custom error that CLAIMS to be permanent / a shutdown error through its As method is classified as such,
+   wherever it sits in the tree; one that claims nothing is transparent *)
+Lemma claim_permanent ls b e : In LPerm ls -> is_permanent (ECustom ls b e) = true.
+Proof.
+  intros H. rewrite is_permanent_occurs. cbn [occurs]. apply orb_true_iff. left.
+  apply existsb_exists. exists LPerm. split; [exact H|reflexivity].
+Qed.
+
+Lemma claim_shutdown ls b e : In LShutdown ls -> is_shutdown (ECustom ls b e) = true.
+Proof.
+  intros H. rewrite is_shutdown_occurs. cbn [occurs]. apply orb_true_iff. left.
+  apply existsb_exists. exists LShutdown. split; [exact H|reflexivity].
+Qed.
+
+Lemma claim_nothing_transparent {A} (f : layer -> option A) b e : find_layer f (ECustom [] b e) = find_layer f e.
+Proof. reflexivity. Qed.
